@@ -74,6 +74,8 @@ type netState struct {
 	portGate map[int]*gate // client-side local port (TCP conn or UDP RTP listener) → the reader's gate
 	portRdr  map[int]*reader
 	clock    *atomic.Int64
+	// onSrvRead (relay over UDP): every datagram the server's RTP socket reads
+	onSrvRead func(b []byte)
 }
 
 func newNetState(clock *atomic.Int64) *netState {
@@ -194,6 +196,14 @@ func (c *srvPC) WriteTo(b []byte, addr net.Addr) (int, error) {
 	}
 	f.held = keep
 	return len(b), nil
+}
+
+func (c *srvPC) ReadFrom(b []byte) (int, net.Addr, error) {
+	n, a, err := c.UDPConn.ReadFrom(b)
+	if err == nil && n >= 12 && c.ns.onSrvRead != nil && c.UDPConn.LocalAddr().(*net.UDPAddr).Port%2 == 0 {
+		c.ns.onSrvRead(b[:n])
+	}
+	return n, a, err
 }
 
 // flush sends what is still held back.
